@@ -543,3 +543,13 @@ package rules
 //@   may_panic
 //@   ensures arrayType == events.ArrayTypeString ==> typeIs(lastKey, "string") && len(payload(lastKey, "string")) == len(data)
 //@   ensures arrayType == events.ArrayTypeResourceID ==> typeIs(lastKey, "rid") && len(payload(lastKey, "rid")) == len(data)
+
+// Array scratch state (C16): every array starts from the same scratch state whatever the previous
+// array - or a previous, rejected document - left behind: nothing counted, nothing collected, no
+// bytes of an unfinished character pending. (Context.Reset does not touch these fields; this is the
+// point where they are re-initialised.)
+//@ func (*Context).beginArray
+//@   requires len(_this.stack) < 0x100000000
+//@   modifies _this.arrayTotalByteCount, _this.builtArrayBuffer, _this.utf8RemainderBuffer, _this.arrayType, _this.arrayMaxByteCount, _this.ValidateArrayDataFunc, _this.stack, obj(_this.CurrentEntry), memall(contextStackEntry), alloc
+//@   ensures _this.arrayTotalByteCount == 0 && len(_this.builtArrayBuffer) == 0 && len(_this.utf8RemainderBuffer) == 0
+//@   ensures _this.arrayType == arrayType && _this.arrayMaxByteCount == maxByteCount
